@@ -455,7 +455,7 @@ func (c *Client) opendir(ctx context.Context, path string) (string, error) {
 	case sshFxpHandle:
 		return unmarshalHandle(id, data)
 	case sshFxpStatus:
-		return "", normaliseError(unmarshalStatus(id, data))
+		return "", statusInsteadOf(sshFxpHandle, id, data)
 	default:
 		return "", unimplementedPacketErr(typ)
 	}
@@ -491,7 +491,7 @@ func (c *Client) Lstat(p string) (os.FileInfo, error) {
 		}
 		return fileInfoFromStat(attr, path.Base(p)), nil
 	case sshFxpStatus:
-		return nil, normaliseError(unmarshalStatus(id, data))
+		return nil, statusInsteadOf(sshFxpAttrs, id, data)
 	default:
 		return nil, unimplementedPacketErr(typ)
 	}
@@ -511,7 +511,7 @@ func (c *Client) ReadLink(p string) (string, error) {
 	case sshFxpName:
 		return unmarshalSingleName(id, data) // ignore dummy attributes
 	case sshFxpStatus:
-		return "", normaliseError(unmarshalStatus(id, data))
+		return "", statusInsteadOf(sshFxpName, id, data)
 	default:
 		return "", unimplementedPacketErr(typ)
 	}
@@ -677,7 +677,7 @@ func (c *Client) open(path string, pflags uint32) (*File, error) {
 		}
 		return &File{c: c, path: path, handle: handle}, nil
 	case sshFxpStatus:
-		return nil, normaliseError(unmarshalStatus(id, data))
+		return nil, statusInsteadOf(sshFxpHandle, id, data)
 	default:
 		return nil, unimplementedPacketErr(typ)
 	}
@@ -716,7 +716,7 @@ func (c *Client) stat(path string) (*FileStat, error) {
 	case sshFxpAttrs:
 		return unmarshalAttrsPacket(id, data)
 	case sshFxpStatus:
-		return nil, normaliseError(unmarshalStatus(id, data))
+		return nil, statusInsteadOf(sshFxpAttrs, id, data)
 	default:
 		return nil, unimplementedPacketErr(typ)
 	}
@@ -735,7 +735,7 @@ func (c *Client) fstat(handle string) (*FileStat, error) {
 	case sshFxpAttrs:
 		return unmarshalAttrsPacket(id, data)
 	case sshFxpStatus:
-		return nil, normaliseError(unmarshalStatus(id, data))
+		return nil, statusInsteadOf(sshFxpAttrs, id, data)
 	default:
 		return nil, unimplementedPacketErr(typ)
 	}
@@ -769,7 +769,7 @@ func (c *Client) StatVFS(path string) (*StatVFS, error) {
 
 	// the resquest failed
 	case sshFxpStatus:
-		return nil, normaliseError(unmarshalStatus(id, data))
+		return nil, statusInsteadOf(sshFxpExtendedReply, id, data)
 
 	default:
 		return nil, unimplementedPacketErr(typ)
@@ -927,7 +927,7 @@ func (c *Client) RealPath(path string) (string, error) {
 	case sshFxpName:
 		return unmarshalSingleName(id, data) // ignore attributes
 	case sshFxpStatus:
-		return "", normaliseError(unmarshalStatus(id, data))
+		return "", statusInsteadOf(sshFxpName, id, data)
 	default:
 		return "", unimplementedPacketErr(typ)
 	}
@@ -2235,9 +2235,17 @@ func (f *File) Sync() error {
 // readStatusError decodes the SSH_FXP_STATUS packet a server sent in reply to an SSH_FXP_READ.
 // SSH_FX_OK is not a valid answer to a read; taking it for "no error" would make the read loops ask forever.
 func readStatusError(id uint32, data []byte) error {
+	return statusInsteadOf(sshFxpData, id, data)
+}
+
+// statusInsteadOf decodes the SSH_FXP_STATUS packet a server sent in reply to a request
+// that can only succeed with a packet of type want (a handle, attributes, names, data).
+// Such a status is an error even if its code is SSH_FX_OK:
+// taken for "no error" the caller would be handed a nil *File or an empty FileInfo together with a nil error.
+func statusInsteadOf(want fxp, id uint32, data []byte) error {
 	err := normaliseError(unmarshalStatus(id, data))
 	if err == nil {
-		return &unexpectedPacketErr{want: sshFxpData, got: sshFxpStatus}
+		return &unexpectedPacketErr{want: want, got: sshFxpStatus}
 	}
 	return err
 }
